@@ -10,6 +10,31 @@ CHECKS = {
          "Every delivery order (with duplication) of a fixed pool of published events is explored per member on the real client; every state is re-offered to quiescence on the graph and compared with the MIP-03 reference computed from the scenario description. Exhaustive within the stated scenario bounds.",
          "Scenario bounds (members <= 5, pool <= 5 quick / <= 8 thorough, rounds <= 3); search-key abstraction argued in DESIGN 2.2 and guarded by trace re-execution; OpenMLS and RustCrypto trusted.",
          "3/C01"),
+ "C02": ("E1 mdkx", "model_checking",
+         "explicit-state BFS of per-member delivery graphs over message scenarios on real clients; per-edge integrity oracle and per-state exactly-once-valid oracle evaluated on the quiescent state each state settles into",
+         "All interleavings (with duplication) of application messages with commits, races and rollbacks within the scenario bounds are explored on the real client; every state is judged by the quiescent state it settles into.",
+         "Exactly-once-valid is required in the epoch-causal regime only (future-epoch messages are outside the stated windows); scenario bounds as C01; default MdkConfig in quick.",
+         "3/C02"),
+ "C07": ("E1 mdkx", "model_checking",
+         "edge property on every explored per-member graph: every deliver(e) edge whose event already took effect in the source state must leave the observable fingerprint unchanged",
+         "Because every pool event is enabled in every state, re-delivery at any later point and any repetition count is part of each graph; each such edge is checked.",
+         "'Already taken effect' is decided from the dedup record, the pending-commit flag and the scenario's fork tree; graphs as C01/C02.",
+         "3/C07"),
+ "C08": ("E1 mdkx", "model_checking",
+         "state invariant evaluated on every state of every explored graph (record == MLS extension and epoch, relays == extension relays) plus scripted id-rotation routing histories",
+         "Every reachable state of the C01/C02 graphs and of id-rotation scenarios is checked after every single step.",
+         "Scenario bounds as C01; routing across two groups is covered by scripted histories, not by the graph search.",
+         "3/C08"),
+ "C14": ("E1 mdkx monitor", "model_checking",
+         "monitor on every transition of the explored graphs: all tracing records, Err Display/Debug and result Debug scanned for every sensitive value in hex (both cases) and byte-list form",
+         "Every log record and returned value produced on every explored transition is scanned; a hit is a violation.",
+         "Encodings other than hex / byte list (e.g. base64) are not judged; Debug of types outside the statement's observation points is not judged.",
+         "3/C14"),
+ "C20": ("E1 mdkx", "model_checking",
+         "state invariant on every state of the explored graphs for retention values 0..6 (stored snapshots <= retention, queue == stored, superseded snapshots gone) plus TTL boundary histories",
+         "Every reachable state is checked; TTL boundaries are enumerated at ttl-1, ttl, ttl+1.",
+         "Scenario bounds as C01.",
+         "3/C20"),
 }
 
 PENDING_REASON = "check not built yet in this revision (see DESIGN.md section 7 build order); will be claimed when its engine lands"
